@@ -104,6 +104,8 @@ def run(ctx):
         mon.cid = cid
         raw, kind, positive = make_sample(F, rng, path, nmax)
         conts = [('raw-sample', raw)]
+        if raw.shape[0] >= 4 and rng.random() < 0.3:
+            conts.append(('derived-sample', zoo.derive(rng, raw, min_events=2)[0]))     # sliced / copied / pickled / rearranged
         if kind[0] == 'u' and rng.random() < 0.7:
             rfi = F.transform.to_rfi(raw)
             conts.append(('rfi-sample', rfi))
